@@ -32,6 +32,37 @@ fn check_container<K: Kmer, V: Vmer>(name: &str, v: &V, s: &[u8], c: &mut Case, 
         );
     }
     checks += nk as u64;
+    // the same iterator driven through nth / skip / step_by / count / last
+    {
+        ensure!(v.iter_kmers::<K>().count() == nk, "{}: iter_kmers::<K={}>().count() != {}", name, k, nk);
+        let last = v.iter_kmers::<K>().last();
+        ensure!(last.map(|x| kstr(&x)) == if nk > 0 { Some(s[n - k..].to_vec()) } else { None }, "{}: iter_kmers::<K={}>().last()", name, k);
+        for j in [0usize, nk.saturating_sub(1), nk, nk + 1, c.rng.below(nk + 2)] {
+            let got = v.iter_kmers::<K>().nth(j).map(|x| kstr(&x));
+            let exp = if j < nk { Some(s[j..j + k].to_vec()) } else { None };
+            ensure!(got == exp, "{}: iter_kmers::<K={}>().nth({}) of {} k-mers = {:?}", name, k, j, nk, got.map(|g| ascii(&g)));
+            let got = v.iter_kmers::<K>().skip(j).next().map(|x| kstr(&x));
+            ensure!(got == exp, "{}: iter_kmers::<K={}>().skip({}).next() of {} k-mers", name, k, j, nk);
+        }
+        let step = 1 + c.rng.below(5);
+        let got: Vec<S> = v.iter_kmers::<K>().step_by(step).map(|x| kstr(&x)).collect();
+        let exp: Vec<S> = (0..nk).step_by(step).map(|i| s[i..i + k].to_vec()).collect();
+        ensure!(got == exp, "{}: iter_kmers::<K={}>().step_by({}) over {} k-mers", name, k, step, nk);
+        // interleaved nth and next on one iterator
+        let mut it = v.iter_kmers::<K>();
+        let mut cur = 0usize;
+        for _ in 0..6 {
+            let j = c.rng.below(4);
+            let got = if c.rng.chance(1, 2) { cur += j; it.nth(j) } else { it.next() };
+            let exp = if cur < nk { Some(s[cur..cur + k].to_vec()) } else { None };
+            ensure!(got.map(|x| kstr(&x)) == exp, "{}: iter_kmers::<K={}> interleaved nth/next at item {} of {}", name, k, cur, nk);
+            cur += 1;
+            if cur > nk { break; }
+        }
+        let gote: Vec<S> = v.iter_kmer_exts::<K>(Exts::new(0)).skip(nk.saturating_sub(1)).map(|x| kstr(&x.0)).collect();
+        ensure!(gote.len() == nk.min(1), "{}: iter_kmer_exts::<K={}>().skip(n-1) yields {} items", name, k, gote.len());
+        checks += 16;
+    }
     // with extensions
     let be = (c.rng.next() & 0xff) as u8;
     let eitems: Vec<(K, Exts)> = v.iter_kmer_exts::<K>(Exts::new(be)).collect();
